@@ -2,6 +2,8 @@ PROPS["C20"] = dict(
     jobs=[job("pseudo", "c20_pseudo", cases={Q: 3, T: 256}),
           # the annotated disassembler called from 2-4 threads at once, each with its own ar/arp settings (behavioural
           # comparison in the fast build, data races in the ThreadSanitizer build)
+          # call-history independence of the annotated disassembler (one ar/arp word changed between consecutive calls ...)
+          job("annot-history", "purity", cases={Q: 600, T: 20000}, shards=16, mode="purity", args={"prop": "C20"}),
           job("annot-concurrent", "purity", cases={Q: 8, T: 200}, shards=4, mode="concurrent", args={"prop": "C20"}),
           job("annot-concurrent-tsan", "purity", flavour="tsan", cases={Q: 2, T: 40}, shards=4, mode="concurrent", args={"prop": "C20", "iters": 40})],
     parallel=8,
